@@ -1,9 +1,10 @@
 (* Extraction of the executable hash-table model and its instantiation (ExtrOcamlBasic only). *)
 From Coq Require Import ZArith List Extraction ExtrOcamlBasic.
 From MomoCommon Require Import GenPrelude.
-From C01 Require Gen_P4 Gen_P4A Gen_One Gen_Open2N2_ops Gen_Open2N2 Gen_OpenN1_ops Gen_OpenN1 Gen_LimP1t Gen_Lim4 Gen_LimP Open8Match HashModel HashInst HashInstProofs Gen_LimP4 Gen_Open2N2 Gen_Open2N2w Gen_OpenN1.
+From C01 Require Gen_LimP1_ops Gen_P4 Gen_P4A Gen_One Gen_Open2N2_ops Gen_Open2N2 Gen_OpenN1_ops Gen_OpenN1 Gen_LimP1t Gen_Lim4 Gen_LimP Open8Match HashModel HashInst HashInstProofs Gen_LimP4 Gen_Open2N2 Gen_Open2N2w Gen_OpenN1.
 Extraction Blacklist List String Int.   (* only renames the generated file List.ml -> List0.ml (clash with OCaml's stdlib List used by the I/O helper) *)
-Separate Extraction Gen_P4.pvSetEmpty Gen_P4.pvGetCount Gen_P4A.AddCrt Gen_P4A.Remove Gen_P4A.Clear
+Separate Extraction Gen_LimP1_ops.pvSet Gen_LimP1_ops.pvGetMemPoolIndex_of Gen_LimP1_ops.pvGetCount Gen_LimP1_ops.IsFull Gen_LimP1_ops.WasFull Gen_LimP1_ops.AddCrt Gen_LimP1_ops.Remove
+  Gen_P4.pvSetEmpty Gen_P4.pvGetCount Gen_P4A.AddCrt Gen_P4A.Remove Gen_P4A.Clear
   Gen_One.AddCrt Gen_One.Remove Gen_One.Clear Gen_One.IsFull Gen_One.WasFull
   Gen_Open2N2_ops.AddCrt Gen_Open2N2_ops.Remove Gen_Open2N2_ops.pvSetEmpty Gen_Open2N2_ops.IsFull Gen_Open2N2_ops.pvGetCount Gen_Open2N2.UpdateMaxProbe
   Gen_OpenN1_ops.AddCrt Gen_OpenN1_ops.Remove Gen_OpenN1_ops.pvSetEmpty Gen_OpenN1_ops.IsFull Gen_OpenN1_ops.pvGetCount Gen_OpenN1.UpdateMaxProbe
